@@ -21,6 +21,11 @@ CLAIMED = {
   "Flow.tla models New/runLoop (markReady, dispatch pass, collect, fold result, re-init discovering latent tasks, failure, cycle check); TLC checks StartAfterDeps, AtMostOnce, LatentDiscipline, NoDeadlock, AtExit (all run / final configuration / failure stops dependants / cycle reported), FailureStops and termination under fairness for all relations on 3 tasks and all forward DAGs on 4 (thorough also 5). Its initial states are the workflows the harness renders as CUE (direct, nested-field and computed-field references, latent tasks behind comprehension guards, one failing task) and runs on the real controller with gated runners under every completion order; each execution (state vector at every UpdateFunc callback, dependency results each runner saw, outcome, final configuration) is validated by TLC against the same actions.",
   "trusted: TLC; the rendering of a workflow as CUE; gating of runners; per-run canaries (missing dependency result, early Ready, double start) must be rejected",
   "DESIGN.md §3 C18"),
+ "C14": ("model_checking",
+  "TLA+ specs Mvs.tla (definition of the MVS result + order-independent traversal), ParWork.tla (work-set protocol, exhaustive + liveness), Semver.tla (precedence); TLC-generated graphs/versions replayed into the real code, par.Work hook traces validated by TLC",
+  "Mvs.tla defines Want (max version over all nodes reachable from the target) and checks that every visiting order of the traversal reaches it without tripping Graph.Require's panics; every graph TLC generates (exhaustive 3 modules x 2 versions, seeded RandomSubset samples up to 8x4 with cycles and older main-module requirements) is fed to the real mvs.BuildList/Req with shuffled lists and random latency and compared with Want (sufficient, minimal, nothing unreachable, main first, no module visited twice, Req minimal). ParWork.tla model-checks the work-set protocol (at most once, return only when drained, no lost wake-up, termination under fairness) and the hook events of real BuildList runs (10 runners) are validated against it with the scalar state (len(todo), waiting) compared at every event. Semver.tla gives a precedence rank to 1099 structured versions; every pair is compared with semver.Compare and module.Versions.Max, plus validity/canonical form.",
+  "trusted: TLC, the Want definition, rendering of versions/graphs; canaries (early return, double pick, wrong waiting count) must be rejected each run",
+  "DESIGN.md §3 C14"),
 }
 
 NOT_YET = "check not built yet in this round (see DESIGN.md §8 for the order of construction)"
